@@ -4,7 +4,7 @@ import json, sys
 pid = sys.argv[1]; k = sys.argv[2] if len(sys.argv) > 2 else '1'
 p = [json.loads(l) for l in open('/verif/properties.jsonl') if json.loads(l)['id'] == pid][0]
 wt = '/tmp/seed_%s_%s' % (pid, k)
-print(f"""You are given a scratch git worktree of the Python/Cython library scikit-network at {wt} (create nothing outside {wt} and /tmp/seed_out_{pid}_{k}/). First build its extension modules: `cd {wt} && /venv/bin/python setup.py build_ext --inplace -j 16 >/dev/null 2>&1` (about 40 s), and always run code with `cd {wt} && PYTHONPATH={wt} /venv/bin/python ...`. The repository's test suite is run with `cd {wt} && PYTHONPATH={wt} /venv/bin/python -m pytest -q -p no:cacheprovider --timeout=900 sknetwork` ; on the unchanged tree exactly these 5 tests fail and must be ignored: test_parse.py::TestParser::test_auto_reindex, test_csv_bipartite, test_unlabeled_unweighted, test_wrong_format and linalg/tests/test_operators.py::TestOperators::test_normalizer; everything else (547 tests) passes.
+print(f"""You are given a scratch git worktree of the Python/Cython library scikit-network at {wt} (create nothing outside {wt} and /tmp/seed_out_{pid}_{k}/). First build its extension modules: `cd {wt} && /venv/bin/python setup.py build_ext --inplace -j 16 >/dev/null 2>&1` (about 40 s), and always run code with `cd {wt} && PYTHONPATH={wt} /venv/bin/python ...`. The repository's test suite is run with `cd {wt} && PYTHONPATH={wt} /venv/bin/python -m pytest -q -p no:cacheprovider --timeout=900 sknetwork` ; on the unchanged tree exactly one test fails and must be ignored (linalg/tests/test_operators.py::TestOperators::test_normalizer); everything else (551 tests) passes.
 
 Here is a semantic property that the library is supposed to satisfy:
 
@@ -13,7 +13,7 @@ STATEMENT: {p['statement']}
 QUANTIFIED OVER: {p['quantifier']['text']}
 RELEVANT FILES: {', '.join(p['anchors']['files'])}
 
-Your task: make ONE small, realistic source change (the kind of slip a maintainer could make in a refactoring, optimisation or bug-fix: 1-10 lines in the library sources, not in tests) that BREAKS this property while the library still builds and the test suite still passes exactly as before (same 547 passing, same 5 failing). The breakage must need something specific to manifest — an unusual input (a particular graph shape, weights, seed set, option combination), a multi-step sequence of operations, a particular thread count/interleaving, or two cooperating sites that each look fine alone — NOT something ordinary use on a typical graph would expose at once, and not a crash on every call. Prefer changes in the core logic of the anchored files over cosmetic ones. If you change a .pyx file, rebuild with the build command above before testing.
+Your task: make ONE small, realistic source change (the kind of slip a maintainer could make in a refactoring, optimisation or bug-fix: 1-10 lines in the library sources, not in tests) that BREAKS this property while the library still builds and the test suite still passes exactly as before (same 551 passing, same 1 failing). The breakage must need something specific to manifest — an unusual input (a particular graph shape, weights, seed set, option combination), a multi-step sequence of operations, a particular thread count/interleaving, or two cooperating sites that each look fine alone — NOT something ordinary use on a typical graph would expose at once, and not a crash on every call. Prefer changes in the core logic of the anchored files over cosmetic ones. If you change a .pyx file, rebuild with the build command above before testing.
 
 Deliver, in the directory /tmp/seed_out_{pid}_{k}/ (create it):
 1. `patch.diff` — output of `git -C {wt} diff` (only your source change; no build products).
